@@ -164,6 +164,38 @@ func c11Negatives() []*RejectCase {
 		ifc := b.Iface(0, "Iface", c, true)
 		return ifc, []Ref{ItemRef(b.Value(c).ID), ItemRef(b.Bind(ifc, c).ID)}
 	})
+	// the same interface bound legally to *C and, elsewhere in the same package, illegally to C
+	// (pointer-receiver methods): an answer remembered for the first must not excuse the second
+	for _, v := range []string{"two-injectors-pointer-first", "two-injectors-value-first", "set-then-injector", "other-iface-first"} {
+		b := NewPB("bn_"+v, "app")
+		c := b.Carrier(0, "Conc")
+		ifc := b.Iface(0, "Iface", PtrTo(c), true)
+		fp := b.Func(0, "NewConcPtr", PtrTo(c), false, false)
+		fv := b.Func(0, "NewConc", c, false, false)
+		fp.Stub, fv.Stub = true, true
+		good := []Ref{ItemRef(fp.ID), ItemRef(b.Bind(ifc, PtrTo(c)).ID)}
+		bad := []Ref{ItemRef(fv.ID), ItemRef(b.Bind(ifc, c).ID)}
+		switch v {
+		case "two-injectors-pointer-first":
+			b.Inj("InitA", ifc, false, false, nil, good...)
+			b.Inj("InitB", ifc, false, false, nil, bad...)
+		case "two-injectors-value-first":
+			b.Inj("InitA", ifc, false, false, nil, bad...)
+			b.Inj("InitB", ifc, false, false, nil, good...)
+		case "set-then-injector":
+			s := b.Set(0, "GoodSet", good...)
+			b.Inj("InitA", ifc, false, false, nil, SetRef(s.ID))
+			b.Inj("InitB", ifc, false, false, nil, bad...)
+		case "other-iface-first":
+			// a second interface with the same method set, legally bound to *C first
+			m := ifc.Decl.Under.Meths[0]
+			ifc2 := Named(b.P.NewDecl(0, "Iface2", &Ty{K: "iface", Meths: []string{m}, Params: []*Ty{PtrTo(c)}}, "iface"))
+			b.Inj("InitA", ifc2, false, false, nil, ItemRef(fp.ID), ItemRef(b.Bind(ifc2, PtrTo(c)).ID))
+			b.Inj("InitB", ifc, false, false, nil, bad...)
+		}
+		b.P.Note = "bind-negative:" + v
+		out = append(out, &RejectCase{P: b.P, Class: "bad-bind", Cell: "negative:" + v})
+	}
 	// binding whose set does not provide the concrete type
 	for _, v := range []string{"concrete-absent", "concrete-in-sibling-set", "concrete-only-as-pointer"} {
 		v := v
